@@ -1,6 +1,8 @@
 --------------------------- MODULE TransparentTrace ---------------------------
-(* Judge for executions recorded by driver c33: uploads through operation.UploadData / operation.Upload,
-   fetches through util.ReadUrlAsStream / util.ReadUrl / util.Get / filer.StreamContent / filer.ChunkReadAt,
+(* Judge for executions recorded by driver c33: uploads through operation.UploadData / operation.Upload or through a
+   raw HTTP request (PUT body / hand-made multipart form) to the volume server,
+   fetches through util.ReadUrlAsStream / util.ReadUrl / util.Get / filer.StreamContent / filer.ChunkReadAt /
+   util.ReadUrlAsReaderCloser / util.DownloadFile / util.Head,
    gzip streams stored flagged as compressed (valid or corrupted), decompression helpers on corrupted input.
    A "panic" event is consumed by no action: an execution that contains one is a violation. *)
 EXTENDS Transparent, TraceKit
@@ -16,25 +18,39 @@ TraceSkip == SkipStep /\ UNCHANGED vars
 
 (* any upload result is admitted; a successful one obliges the fetches *)
 EvRow == [ext |-> Ev.ext, mime |-> Ev.mime, size |-> Ev.size, kind |-> Ev.kind, cipher |-> Ev.cipher, gzin |-> Ev.gzin,
-          fn |-> Ev.fn]
+          fn |-> Ev.fn, md5 |-> "none", nameat |-> "part"]
+EvRawRow == [ext |-> Ev.ext, mime |-> Ev.mime, size |-> Ev.size, kind |-> Ev.kind, cipher |-> FALSE, gzin |-> Ev.gzin,
+             fn |-> Ev.fn, md5 |-> Ev.md5, nameat |-> Ev.nameat]
 (* one random byte sniffs as text or as binary depending on the byte: no prediction for it *)
 AsPredicted == (Ev.res = "ok" /\ ~Malformed(EvRow) /\ ~(Ev.kind \in {"rand", "gzprefix"} /\ Ev.size = "s1" /\ Ev.mime = "none")) =>
                  (Ev.gzip = Stored(EvRow).rgzip /\ Ev.haskey = Stored(EvRow).key /\ Ev.rsize = Ev.len)
 TUpload == /\ IsEvent("upload") /\ Strict
            /\ Advisory => AsPredicted
-           /\ up' = [up EXCEPT ![Ev.id] = UploadRec(Ev.res, Ev.len, Ev.validgz)]
+           /\ up' = [up EXCEPT ![Ev.id] = UploadRec(Ev.res, Ev.len, Ev.validgz, PlainName(Ev.ext))]
            /\ UNCHANGED <<row, hist>>
+(* a raw HTTP upload: a digest that does not fit must be refused; any other answer is admitted and 2xx obliges the
+   fetches.  Advisory: does the table predict the answer, the reported size and the digest the server reports *)
+PutAsPredicted == /\ Accepted(Ev.status) = ~RawRefused(EvRawRow)
+                  /\ (Accepted(Ev.status) /\ Ev.validgz) => (Ev.rsize = Ev.len /\ Ev.rmd5 = "d")
+TPut == /\ IsEvent("put") /\ Strict
+        /\ PutOK(Ev.md5, Ev.status)
+        /\ Advisory => PutAsPredicted
+        /\ up' = [up EXCEPT ![Ev.id] = PutRec(Ev.md5, Ev.status, Ev.len, Ev.validgz, Ev.nameat # "none" /\ PlainName(Ev.ext))]
+        /\ UNCHANGED <<row, hist>>
 (* a gzip stream stored as a compressed needle: an uncorrupted one obliges the fetches like an upload *)
 TStore == /\ IsEvent("store") /\ Strict
-          /\ up' = [up EXCEPT ![Ev.id] = UploadRec(Ev.res, Ev.len, Ev.case = "valid")]
+          /\ up' = [up EXCEPT ![Ev.id] = UploadRec(Ev.res, Ev.len, Ev.case = "valid", FALSE)]
           /\ UNCHANGED <<row, hist>>
 TFetch == /\ IsEvent("fetch") /\ Strict
-          /\ Ev.applicable => FetchOK(up[Ev.id], Ev.full, Ev.off, Ev.size, Ev.res, Ev.seg)
+          /\ Ev.applicable =>
+               IF Ev.via = "head" THEN HeadOK(up[Ev.id], Ev.res, Ev.clen, Ev.cenc)
+               ELSE /\ FetchOK(up[Ev.id], Ev.via, Ev.full, Ev.off, Ev.size, Ev.res, Ev.seg)
+                    /\ Ev.via = "download" => NameOK(up[Ev.id], Ev.res, Ev.fname)
           /\ UNCHANGED vars
 TDecomp == /\ IsEvent("decomp") /\ Strict
            /\ DecompOK(Ev.fn, Ev.case, Ev.isgz, Ev.res, Ev.same)
            /\ UNCHANGED vars
 
-TraceNext == TraceReset \/ TraceSkip \/ TUpload \/ TStore \/ TFetch \/ TDecomp
+TraceNext == TraceReset \/ TraceSkip \/ TUpload \/ TPut \/ TStore \/ TFetch \/ TDecomp
 TraceSpec == TraceInit /\ [][TraceNext]_tvars
 =============================================================================
